@@ -88,7 +88,7 @@ static std::string opname(const Op& o) {
 static void build_ops() {
   OPS.clear();
   auto add = [&](Op o) { OPS.push_back(o); };
-  bool wide = MODE != "c08";
+  bool wide = (MODE == "c15" || MODE == "c16");   // "c15core": the core alphabet of c08 with the leak oracle of c15
   for (int i = 0; i < NS; i++) add(Op{K_RESET, i, 0, 0, 0, 0, 0, 0, false});
   for (int i = 0; i < NS; i++) for (int d : DIMS) add(Op{K_SIZED, i, 0, 0, 0, d, 0, 0, false});
   for (int i = 0; i < NS; i++) for (int b = 0; b < NB; b++) for (int d : DIMS) add(Op{K_EXT, i, 0, 0, 0, d, b, 0, false});
@@ -394,6 +394,28 @@ static std::string key_for(World& w, const Model& m, const int* sp, const int* b
   for (auto& s : cached) k += ";" + s;
   return k;
 }
+// Exact content of the library's per-dimension caches, observed through the public interface: allocate vectors of each
+// dimension until a fresh block appears; every block handed out before that was cached under that dimension. This is
+// destructive, so it is the last thing done with a replayed state (the teardown probe follows). It makes the key
+// independent of the assumption "a block is cached under the dimension its length suggests".
+static std::string probe_caches(std::string* err) {
+  arena::Arena& A = arena::A(); std::string k; size_t nb0 = A.blocks.size();
+  std::vector<int> order(A.blocks.size(), -1);
+  for (int d = 2; d <= 6; d++) {
+    std::vector<SU_vector> got; got.reserve(40); std::string part;
+    for (int q = 0; q < 36; q++) {
+      got.emplace_back((unsigned)d);
+      arena::Block* b = A.find(&got.back()[0]);
+      if (!b) { if (err) *err = fmt("allocation of dimension %d returned storage outside every block", d); break; }
+      if ((size_t)b->id >= nb0) break;   // fresh block: the cache of this dimension is exhausted
+      if ((const char*)(&got.back()[0] + d * d) > b->data + b->size) { if (err) *err = fmt("cache of dimension %d handed out a block of %zu bytes", d, b->size); }
+      part += fmt("(%zu,%d,%d)", b->size, (int)(((uintptr_t)b->data) % 32), (int)((const char*)&got.back()[0] - b->data));
+    }
+    if (!part.empty()) k += fmt(";d%d:", d) + part;
+  }
+  return k;
+}
+
 static std::string canonical_key(World& w, const Model& m) {
   std::string best; int sp[MAXS] = {0, 1, 2};
   std::vector<int> perm; for (int i = 0; i < NS; i++) perm.push_back(i);
@@ -459,7 +481,12 @@ static RunResult run_history(const std::vector<int>& h, int align_mode, bool rep
       if (A.errors()) fail(c, "ledger:" + A.first_error.substr(0, 60), "reassigning after bad_alloc in " + opname(o));
     }
   }
-  if (r.member && !c.failed) { r.key = canonical_key(w, m); }
+  if (r.member && !c.failed) {
+    r.key = canonical_key(w, m);
+    std::string perr; r.key += probe_caches(&perr);
+    if (!perr.empty()) fail(c, "cache:undersized-or-foreign-block-handed-out", perr + " after " + (h.empty() ? std::string("(root)") : opname(OPS[h.back()])));
+    if (A.errors()) fail(c, "ledger:" + A.first_error.substr(0, 60), "while probing the caches");
+  }
   if (r.member && !c.failed) teardown(w, c, "after " + (h.empty() ? std::string("(root)") : opname(OPS[h.back()])));
   else { w.destroy_all(); }
   A.active = false;
@@ -528,7 +555,7 @@ int main(int argc, char** argv) {
           int fo = open((base + ".out").c_str(), O_WRONLY | O_CREAT | O_APPEND, 0644), fe = open((base + ".err").c_str(), O_WRONLY | O_CREAT | O_APPEND, 0644);
           dup2(fo, 1); dup2(fe, 2);
           st() = State();
-          FILE* rec = fopen((base + ".rec").c_str(), "a");
+          int recfd = open((base + ".rec").c_str(), O_WRONLY | O_CREAT | O_APPEND, 0644);   // one write() per record: a worker that dies never leaves half a line
           std::unordered_set<std::string> local;
           long idx = 0;
           for (size_t fi = wi; fi < frontier.size(); fi += W) {
@@ -543,10 +570,10 @@ int main(int argc, char** argv) {
               if (r.failed) {
                 // a block cached under dimension 0 survives clear_mem_cache() and would leak into the next replay: restart this worker then
                 bool contaminated = false; for (auto& b : arena::A().blocks) if (b.live && b.size <= 3 * sizeof(double)) contaminated = true;
-                if (contaminated) { fflush(stdout); fclose(rec); finish(); _exit(77); }
+                if (contaminated) { fflush(stdout); close(recfd); finish(); _exit(77); }
                 continue;
               }
-              if (!seen.count(r.key) && local.insert(r.key).second) { fprintf(rec, "%zu %zu %s\n", fi, oi, r.key.c_str()); }
+              if (!seen.count(r.key) && local.insert(r.key).second) { std::string line = std::to_string(fi) + " " + std::to_string(oi) + " " + r.key + "\n"; ssize_t wr = write(recfd, line.data(), line.size()); (void)wr; }
               if (MODE == "c16") {
                 for (long k = 0; k < r.allocs_last; k++) {
                   sh[wi].k = k; set_case(hist_string(h, am) + "!" + std::to_string(k));
@@ -554,12 +581,12 @@ int main(int argc, char** argv) {
                   if (!fr.member) continue;
                   count("fault_runs"); count("executions");
                   distinct(ref::fnv(r.key.data(), r.key.size(), oi * 131 + k));
-                  if (fr.failed) { bool contaminated = false; for (auto& b : arena::A().blocks) if (b.live && b.size <= 3 * sizeof(double)) contaminated = true; if (contaminated) { fflush(stdout); fclose(rec); finish(); _exit(77); } }
+                  if (fr.failed) { bool contaminated = false; for (auto& b : arena::A().blocks) if (b.live && b.size <= 3 * sizeof(double)) contaminated = true; if (contaminated) { fflush(stdout); close(recfd); finish(); _exit(77); } }
                 }
               }
             }
           }
-          fclose(rec); finish(); _exit(0);
+          close(recfd); finish(); _exit(0);
         }
         pids[wi] = pid;
       };
@@ -590,7 +617,7 @@ int main(int argc, char** argv) {
       for (int wi = 0; wi < W; wi++) {
         std::string base = tmpdir + "/w" + std::to_string(wi);
         FILE* f = fopen((base + ".rec").c_str(), "r");
-        if (f) { char line[4096]; while (fgets(line, sizeof line, f)) { size_t a, b; int off = 0; if (sscanf(line, "%zu %zu %n", &a, &b, &off) >= 2) { std::string k = line + off; while (!k.empty() && (k.back() == '\n')) k.pop_back(); recs.push_back(Rec{a, b, k}); } } fclose(f); }
+        if (f) { static char line[1 << 16]; while (fgets(line, sizeof line, f)) { size_t a, b; int off = 0; if (sscanf(line, "%zu %zu %n", &a, &b, &off) >= 2 && a < frontier.size() && b < nreal) { std::string k = line + off; while (!k.empty() && (k.back() == '\n')) k.pop_back(); recs.push_back(Rec{a, b, k}); } } fclose(f); }
         f = fopen((base + ".out").c_str(), "r");
         if (f) { char line[65536]; while (fgets(line, sizeof line, f)) {
             if (!strncmp(line, "#V ", 3)) { std::string l = line; std::string sig = l.substr(3, l.find('\t') - 3); if (vio_seen[sig]++ < 3) fputs(line, stdout); st().violations++; }
@@ -602,6 +629,8 @@ int main(int argc, char** argv) {
       for (auto& r : recs) if (seen.insert(r.key).second) { std::vector<int> h = frontier[r.fi]; h.push_back((int)r.oi); next.push_back(h); total_states++; if (total_states % 997 == 1) sample("{\"history\":" + jstr(hist_names(h)) + ",\"key\":" + jstr(r.key) + "}"); }
       frontier.swap(next);
       depth_reached = std::max(depth_reached, depth);
+      // once a level has produced violations the verdict is known; deeper levels of a broken tree only cost time
+      if (st().violations > 0 && !frontier.empty()) { info("stopped", fmt("violations found at depth %d; deeper levels not explored", depth)); frontier.clear(); closed = false; break; }
       fprintf(stderr, "[hist %s am=%d] level %d: %zu new states, %ld total, %.1fs\n", MODE.c_str(), am, depth, frontier.size(), total_states, std::chrono::duration<double>(std::chrono::steady_clock::now() - t0).count());
     }
     if (!frontier.empty()) { closed = false; }
